@@ -227,6 +227,9 @@ def build_family(rng, entry, variant, p, fi):
         wts = sig3(rng.uniform(0.3, 2.5, G), 3)
         if variant == "Gz" and G >= 2:
             wts[int(rng.integers(G))] = 0.0
+        if variant == "G+" and G >= 2 and rng.random() < 0.3:
+            # a zero weight under positivity: the group is unpenalised but still constrained
+            wts[int(rng.integers(G))] = 0.0
         fam["dargs"] = dict(grp_ptr=ptr, grp_indices=idx)
         if variant == "SG":
             fam["penalty"] = "WeightedL1GroupL2"
